@@ -16,7 +16,7 @@ import ast
 import struct
 
 from ..model import norm
-from ..q import fold_block, NotConst
+from ..q import fold_block, NotConst, FoldObject
 
 GRID = [(ns, lc, ln) for ns in (2, 4) for lc in (4, 5, 7, 16, 255) for ln in (0, 1, 2, 3, 5, 10, 12, 14, 251, 253, 254, 300)]
 def _imports_pack(prog):
@@ -109,3 +109,112 @@ def verdicts(prog):
         if any(o < 0 or o + len(d) > ns + ln for o, d in cmds):
             bad['range'].append('%s: %s writes outside 0..%d' % (where, shown, ns + ln))
     return bad
+
+
+OFFSETS = (0, 1, 255, 256, 0x7FFF, 0x8000, 0xFFFF, 0x10000, 0x10001, 0x20000, 0xFFFFFF, 0xFFFFFFFF)
+
+
+def address_limit(prog):
+    """-> (limit, detail): READ BINARY / UPDATE BINARY as the source builds them are folded for the offsets of OFFSETS with
+    `self.tag.send_apdu` modelled (it records P1 P2); an offset is *addressable* when both commands fold and carry it unchanged
+    in P1 P2.  limit = the smallest grid offset that is not addressable (None when every grid offset is): no octet of the file at or
+    behind it can be read or written by this reader / writer (the fold either raises struct.error or addresses another octet)."""
+    _cache = prog.__dict__.setdefault('_t4model', {})
+    if 'limit' in _cache:
+        return _cache['limit']
+    rb = prog.func('nfc.tag.tt4.Type4Tag.NDEF._read_binary')
+    ub = prog.func('nfc.tag.tt4.Type4Tag.NDEF._update_binary')
+    limit, why = None, ''
+    for off in OFFSETS:
+        seen = []
+
+        def send_apdu(cla, ins, p1, p2, data=None, *rest, **kw):
+            seen.append((ins, p1 * 256 + p2))
+            return bytearray(1)
+        try:
+            for f, env in ((rb, {'offset': off, 'size': 1}), (ub, {'offset': off, 'data': bytearray(1)})):
+                env.update({'self._max_le': 255, 'self._max_lc': 255, '__calls__': {'self.tag.send_apdu': send_apdu}})
+                fold_block(_body(f), env)
+            okk = [o for _, o in seen] == [off, off]
+            what = 'addresses %s' % ([o for _, o in seen],)
+        except NotConst as e:
+            okk, what = False, str(e)
+        if not okk:
+            limit, why = off, 'offset %d: %s' % (off, what)
+            break
+    _cache['limit'] = (limit, why)
+    return limit, why
+
+
+class _Self(FoldObject):
+    pass
+
+
+def reader_offsets(prog):
+    """`_read_ndef_data` folded with `_read_binary` modelled as a file that answers every offset (min(MLe, size) octets), for both
+    NLEN widths, capacities up to the largest the address limit admits and announced lengths at / above the capacity and at the top
+    of the NLEN field.  -> list of problems: an offset at or beyond address_limit() handed to `_read_binary`, a fold that does not end,
+    a message longer than the capacity."""
+    limit, _ = address_limit(prog)
+    f = prog.func('nfc.tag.tt4.Type4Tag.NDEF._read_ndef_data')
+    problems, n = [], 0
+    top = limit if limit is not None else 0x20000
+    for ns in (2, 4):
+        for cap in sorted(set([0, 1, 253, 4094, top - ns])):
+            for nlen in sorted(set([0, 1, cap, cap + 1, top, (1 << (8 * ns)) - 1])):
+                if nlen >= (1 << (8 * ns)):
+                    continue
+                for mle in (15, 256):
+                    n += 1
+                    offs = []
+
+                    def read_binary(offset, size):
+                        offs.append(offset)
+                        if len(offs) > 9000:
+                            raise NotConst('more than 9000 READ BINARY commands')
+                        if offset < ns:
+                            return bytearray(nlen.to_bytes(ns, 'big')[offset:offset + min(mle, size)])
+                        k = min(mle, size)
+                        return bytearray(k - 1 if k == size and size > 1 else k)      # the last octet is fetched by a read of its own
+                    env = {'self': _Self(), 'self._nlen_size': ns, 'self._capacity': cap, 'self.capacity': cap, 'self._max_le': mle,
+                           'self._ndef_file': b'\xE1\x04', '__funcs__': {'hasattr': lambda o, a: True},
+                           '__calls__': {'self._read_binary': read_binary, 'self._select_fid': lambda fid: True,
+                                         'self._discover_ndef': lambda: True}}
+                    where = 'NLEN width %d, capacity %d, announced length %d, MLe %d' % (ns, cap, nlen, mle)
+                    try:
+                        r = fold_block(_body(f), env)
+                    except NotConst as e:
+                        problems.append('%s: cannot fold the reader (%s)' % (where, e))
+                        continue
+                    if limit is not None and any(o >= limit for o in offs):
+                        problems.append('%s: READ BINARY at offset %d, which the command cannot carry' % (where, max(offs)))
+                    if r[0] == 'return' and r[1] is not None and (len(r[1]) > cap or len(r[1]) != nlen):
+                        problems.append('%s: a message of %d octets is accepted' % (where, len(r[1])))
+                    if r[0] not in ('return',):
+                        problems.append('%s: the reader ends with %s' % (where, r[0]))
+    return problems, n
+
+
+def dump_offsets(prog):
+    """`_dump_ndef_data` folded against a file that never ends (every READ BINARY answers 16 octets): the dump must end by itself and
+    hand only offsets below address_limit() to `_read_binary`."""
+    limit, _ = address_limit(prog)
+    f = prog.func('nfc.tag.tt4.Type4Tag.NDEF._dump_ndef_data')
+    offs = []
+
+    def read_binary(offset, size):
+        offs.append(offset)
+        if len(offs) > 70000:
+            raise NotConst('more than 70000 READ BINARY commands')
+        return bytearray(min(16, size))
+    env = {'self': _Self(), 'self._max_le': 256, '__calls__': {'self._read_binary': read_binary}}
+    try:
+        r = fold_block(_body(f), env)
+    except NotConst as e:
+        return ['the dump of a file that answers every READ BINARY does not end (%s)' % e]
+    out = []
+    if limit is not None and any(o >= limit for o in offs):
+        out.append('READ BINARY at offset %d, which the command cannot carry' % max(offs))
+    if r[0] != 'return':
+        out.append('the dump ends with %s' % r[0])
+    return out
